@@ -233,7 +233,10 @@ def _support_mask(recipe, shape, g):
 def well_posed(m):
     """True when the support has at least 3 non-collinear pixels (tilt fit is full rank)."""
     rr, cc = np.nonzero(m)
-    return rr.size >= 3 and np.unique(rr).size >= 2 and np.unique(cc).size >= 2
+    if rr.size < 3:
+        return False
+    B = np.stack([np.ones(rr.size), rr - rr.mean(), cc - cc.mean()], axis=1)
+    return int(np.linalg.matrix_rank(B)) == 3
 
 
 def _mask_array(kind, recipe, shape, g):
